@@ -693,7 +693,10 @@ package larking
 //@   count begins `sh.HandleRPC(ctx, &stats.Begin{`
 //@   count ends `sh.HandleRPC(ctx, &stats.End{`
 //@   ensures [one-snapshot C12] loads == 1
-//@   ensures [end-after-begin C18] begins == ends
+//@   count earlyEnds `endRPC(`
+//@   ensures [end-after-begin C18] at every return earlyEnds == 0 ==> begins == ends
+//@   ensures [an-early-end-replaces-the-regular-one C18] at every return earlyEnds >= 1 ==> earlyEnds == 1 && ends == 0
+//@   ensures [no-end-without-begin C18] at every return begins == 0 ==> ends == 0
 //@   count trailerCopies `setOutgoingHeader(w.Header(), stream.trailer)`
 //@   assert at "if herr != nil {" #2 [reply-headers-do-not-depend-on-the-stats-handler C18] trailerCopies == 1
 //@   witness verifWitnessStatsTransparent for reply-headers-do-not-depend
@@ -1629,3 +1632,11 @@ package larking
 //@   requires w != nil
 //@   assert atcall `w.resp.Write(` [headers-are-fixed-before-the-first-body-byte C06 C14] w.wroteHeader
 //@   assert atcall `w.resp.Write(` [the-callers-bytes-are-written C06] same(arg0, b)
+
+// The early end of an RPC (serveHTTP's endRPC closure: a failure after stats.Begin on a path
+// that does not reach the transport's regular stats.End) is reported exactly when a stats
+// handler is installed, once, and carries the error handed in.
+//@ func (*Mux).serveHTTP$1 serves C18 partial ghost count post
+//@   count ends `sh.HandleRPC(ctx, &stats.End{`
+//@   ensures [an-early-end-is-one-end-event C18] at every return ends <= 1
+//@   assert atcall `sh.HandleRPC(ctx, &stats.End{` [an-early-end-carries-the-error-handed-in C18] ptr(pay(arg1), "stats.End").Error == err
